@@ -38,7 +38,7 @@ fn plan(tier: Tier) -> Plan {
             exhaustive: false,
         },
         Tier::Thorough => Plan {
-            cases: exhaustive_lines(6) + 300_000,
+            cases: exhaustive_lines(6) + 3_000_000,
             time_cap_s: 420,
             case_timeout_s: 10,
             exhaustive: false,
